@@ -89,6 +89,15 @@ CHECKS.update({
         design="4/C16"),
 })
 
+CHECKS.update({
+    "C01": dict(
+        level="exploration",
+        technique="deviation-bounded exhaustive enumeration of abstract OPC packages (every rooted relationship digraph x style vectors with <= 1 / <= 2 deviations from the default style), written by the harness's own zip writer, round-tripped through the real OpcPackage.open/save and compared by an independent OPC reader",
+        text="All rooted digraphs over k <= 3 parts (cycles, self-loops, shared targets; thorough: k = 4 by isomorphism class) x style vectors (target form, Default/Override/case variants, several parts sharing an extension, id schemes, payload kinds incl. XML with comments/PIs for parsed parts, zip path/stream/directory, orphans, parallel edges, external relationships) within the deviation bound, plus all 68 corpus decks through OpcPackage and Presentation; 78k (thorough 682k) packages, sizes asserted against closed forms; save(open(out)) must be byte-identical per member.",
+        note="Trusted: mc/oracles/opc_ref.py, the generator mc/props/c01_gen.py (opc_ref must agree with the abstract model on every generated input or the run is a harness error). Zip-level variations (member order, stored vs deflated, Zip64) are not modelled.",
+        design="4/C01"),
+})
+
 NOT_BUILT = "check not completed yet (machinery under construction; see DESIGN.md section 8)"
 
 def main():
